@@ -134,6 +134,15 @@ def fix(raw, length):
         return raw
     items = [raw[i] for i in range(length)]
     with NoTracing():
+        # every input byte is an 8-bit slice of itself: integers assembled from bytes with * and + (or << and |)
+        # keep a structured representation (vlib/bitrep.py)
+        from vlib.bitrep import BitRep
+        for it in items:
+            if isinstance(it, SymbolicInt):
+                try:
+                    setattr(it, "_verif_bitrep", BitRep([(0, 8, it.var, 8, 0)], None))
+                except Exception:
+                    pass
         return SymbolicBytes(FixedSeq(items))
 
 
